@@ -16,10 +16,10 @@ DEFAULT_FEATURES = {
     "array_mut": True, "struct_param": True, "early_return": True, "string_loop": True, "charops": True,
     "exit_codes": True, "print_noline": True,
     # ---- constructs bound to known findings / outside the clean zone (off by default) ----
-    "for_continue": False,       # `continue` inside `for` (VM)
-    "logic_effect": False,       # and/or with an effectful right operand (VM)
+    "for_continue": True,       # fixed in the VM (was: hang); `continue` inside `for` (VM)
+    "logic_effect": True,       # fixed in the VM (was: both operands evaluated); and/or with an effectful right operand (VM)
     "block_shadow": False,       # inner let shadowing an outer name
-    "enum_print": False,         # printing an enum value
+    "enum_print": True,         # fixed in the VM (was: enum(N)); printing an enum value
     "min_builtin": False,        # (min a b) on the VM
     "charclass_vm": True,        # fixed (was: wrong results on the VM) is_alpha / is_alnum / is_whitespace / is_upper / is_lower on the VM
     "cmp_same_operand": False,   # (< a a): cc -Werror=tautological-compare
